@@ -15,7 +15,7 @@ import minilex
 OBLIGATIONS = ['Cvise.C18.exit_codes', 'Cvise.C18.define_in_bounds', 'Cvise.C18.rmToks_output_sublist', 'Cvise.C18.rmToks_prefix',
                'Cvise.C18.print_spec', 'Cvise.C18.shipped_define_bounded', 'Cvise.C18.old_define_reads_out_of_bounds',
                'Cvise.C18.rmTokPattern_output_sublist', 'Cvise.C18.rmTokPattern_prefix', 'Cvise.C18.deleteString_spec', 'Cvise.C18.shortenString_spec',
-               'Cvise.C18.xString_length', 'Cvise.C18.ok_indices_are_a_prefix']
+               'Cvise.C18.xString_length', 'Cvise.C18.ok_indices_are_a_prefix', 'Cvise.C18.rename_spec']
 
 MODES = ['rename-toks', 'delete-string', 'define', 'rm-tok-pattern-4', 'rm-toks-1', 'rm-toks-2', 'rm-toks-3', 'rm-toks-7', 'print', 'shorten-string', 'x-string']
 SHIPPED_EXTRA = ['rm-tok-pattern-8', 'rm-toks-16', 'rm-toks-32']
